@@ -16,7 +16,7 @@ REPO = os.environ.get("VERIF_REPO", "/repo")
 PY = os.environ.get("VERIF_PYTHON", "/venv/bin/python")
 NPROC = int(os.environ.get("VERIF_NPROC", str(min(16, os.cpu_count() or 4))))
 GUARD = "XTUML_OTEL2PUML_VERIF"
-BREAKDOWN_TAGS = {"E1", "E2", "E3", "multi-start", "multi-event-break", "S1", "S2-eq", "S2-neq",
+BREAKDOWN_TAGS = {"E1", "E1-followed", "E2", "E3", "multi-start", "multi-event-break", "S1", "S2-eq", "S2-neq",
                   "F_core", "F_edge", "corpus", "starts-with-block"}
 
 
